@@ -1209,6 +1209,44 @@ fn e2e_body(c: &Comp3Case, rec: &mut Rec) -> CaseResult {
     comp_judge(zone, &c.params, hz, &q, c.qtype, &ev, e2e_secure, &render)
 }
 
+/// "for every NSEC3-signed zone and query the server's own proof is accepted": also when there is
+/// nothing to deny. A positive answer (the RRset, or a CNAME chain inside the zone) served by
+/// hickory's own server must come out of the real validator as Secure, whatever else the server
+/// chose to put into the authority section.
+fn positive_e2e_body(c: &Comp3Case, rec: &mut Rec) -> CaseResult {
+    let cx = hk_ctx(&c.zone, &c.params)?;
+    let (zone, hz) = (&cx.0, &cx.1);
+    let q = abs_q(zone, c.q.as_str());
+    let qn = to_name(&q);
+    let truth = zone.truth(&q, c.qtype);
+    if !matches!(truth, Truth::Positive) {
+        rec.discard(format!("truth-{}", truth.kind()));
+        return Ok(());
+    }
+    let m = zb::ask(hz, &qn, rtype(c.qtype)).map_err(|e| Fail::new("harness-ask", e))?;
+    let nsec3_in_authority = m.authorities.iter().filter(|r| r.record_type() == hickory_proto::rr::RecordType::NSEC3).count();
+    rec.class(if nsec3_in_authority > 0 { "positive-answer:server-attached-nsec3" } else { "positive-answer:no-nsec3" });
+    let v = super::c08::e2e_query(hz, &qn, c.qtype, Some((100, 500)))?;
+    rec.nontrivial();
+    let ok = matches!(v, E2eVerdict::Accepted { all_secure: true, answers, .. } if answers > 0);
+    if !ok {
+        return triage(Fail::new(
+            if nsec3_in_authority > 0 { "nsec3-positive-answer-with-superfluous-nsec3-rejected" } else { "nsec3-positive-answer-rejected" },
+            format!(
+                "zone [{}] {} query {qn} {} (the RRset exists): server answered rcode {:?} with {} answer and {} authority records ({} NSEC3); DnssecDnsHandle = {v:?}",
+                zone.render(),
+                c.params.show(),
+                ty::mnemonic(c.qtype),
+                m.metadata.response_code,
+                m.answers.len(),
+                m.authorities.len(),
+                nsec3_in_authority
+            ),
+        ));
+    }
+    Ok(())
+}
+
 /// the configured iteration limits reach the validation of a real response: the zone's iteration
 /// count is 1 or 5, the limits are set just below it, at it, or left at the defaults
 fn limits_e2e_body(c: &Comp3Case, rec: &mut Rec) -> CaseResult {
@@ -1491,11 +1529,12 @@ pub fn check() -> Option<Check> {
     );
     let comp_sampled = prop("complete_sampled", 12_000, 400_000, |_t: Tier| sampled_comp(8), comp_body);
     let comp_e2e = prop("complete_e2e", 5_000, 150_000, |_t: Tier| sampled_comp(6), e2e_body);
+    let positive_e2e = prop("positive_e2e", 6_000, 150_000, |_t: Tier| (super::c08::sampled_positive(6), p3_small()).prop_map(|(c, params)| Comp3Case { zone: c.zone, params, q: c.q, qtype: c.qtype }), positive_e2e_body);
     let limits_e2e = prop("iteration_limits_e2e", 6_000, 150_000, |_t: Tier| sampled_comp(6), limits_e2e_body);
     Some(Check {
         id: "C09",
         level: "exploration",
-        rule: "soundness case = (zone over labels {a,b,*} to depth 3 with hosts, CNAMEs, wildcards, empty non-terminals, delegations +/-DS, glue; NSEC3 parameters salt {0,1,8 octets} x iterations x Opt-Out; query name in or just outside the zone; query types) evaluated for every claim (NXDOMAIN, NODATA, each wildcard-expanded answer with a genuine RRSIG, NXDOMAIN+answer) x SOA name present/absent x every non-empty subset of the zone's genuine NSEC3 ring (all subsets for rings <= 6 records in sampled cases and <= 10 in enumerated ones, otherwise singletons, full, full-minus-one and 40 pseudo-random subsets); non-trivial when the query name is in the zone. sound_enum = exhaustive depth-2 sweep (quick <=1 owner, thorough <=2 owners; 4 parameter sets), sound_slice = 1/5 (quick) resp. 1/3 (thorough) slice of the next size. iteration_limits: iterations in {0,1,5,soft,soft+1,hard,hard+1} against configured (soft,hard): above hard every verdict must be Bogus, above soft none Secure. foreign_mix: subsets mixed with records of the same zone under other parameters (at least one of each) or of a disjoint zone (same or other parameters): never Secure unless the genuine part alone is. chain_*: hickory's generated ring = RFC 5155 7.1 ring of the model. Completeness case = (zone, parameters, query) with negative/wildcard truth answered by hickory's own NSEC3-signed zone, judged by verify_nsec3 (complete_enum, complete_sampled) and by DnssecDnsHandle (complete_e2e). iteration_limits_e2e: the same responses through DnssecDnsHandle::nsec3_iteration_limits(soft, hard) with the limits just below / at the zone's iteration count (1 or 5): above soft never Secure, above hard an error, at the count the default verdict.",
+        rule: "soundness case = (zone over labels {a,b,*} to depth 3 with hosts, CNAMEs, wildcards, empty non-terminals, delegations +/-DS, glue; NSEC3 parameters salt {0,1,8 octets} x iterations x Opt-Out; query name in or just outside the zone; query types) evaluated for every claim (NXDOMAIN, NODATA, each wildcard-expanded answer with a genuine RRSIG, NXDOMAIN+answer) x SOA name present/absent x every non-empty subset of the zone's genuine NSEC3 ring (all subsets for rings <= 6 records in sampled cases and <= 10 in enumerated ones, otherwise singletons, full, full-minus-one and 40 pseudo-random subsets); non-trivial when the query name is in the zone. sound_enum = exhaustive depth-2 sweep (quick <=1 owner, thorough <=2 owners; 4 parameter sets), sound_slice = 1/5 (quick) resp. 1/3 (thorough) slice of the next size. iteration_limits: iterations in {0,1,5,soft,soft+1,hard,hard+1} against configured (soft,hard): above hard every verdict must be Bogus, above soft none Secure. foreign_mix: subsets mixed with records of the same zone under other parameters (at least one of each) or of a disjoint zone (same or other parameters): never Secure unless the genuine part alone is. chain_*: hickory's generated ring = RFC 5155 7.1 ring of the model. Completeness case = (zone, parameters, query) with negative/wildcard truth answered by hickory's own NSEC3-signed zone, judged by verify_nsec3 (complete_enum, complete_sampled) and by DnssecDnsHandle (complete_e2e). positive_e2e: (zone, parameters, query) whose RRset exists, answered by hickory's own NSEC3-signed zone and validated by the real DnssecDnsHandle: must be Secure whatever the server put into the authority section. iteration_limits_e2e: the same responses through DnssecDnsHandle::nsec3_iteration_limits(soft, hard) with the limits just below / at the zone's iteration count (1 or 5): above soft never Secure, above hard an error, at the count the default verdict.",
         assumptions: vec![
             "truth predicate = refm::zonemodel (RFC 1034 4.3.2, RFC 4592, RFC 4035 3.1.4); NSEC3 ring per RFC 5155 7.1 with all records carrying the Opt-Out flag when the zone opts out and insecure delegations (and ENTs only leading to them) omitted; reference hash checked against RFC 5155 Appendix A at start-up",
             "a Secure NODATA/DS verdict resting on an Opt-Out cover is accepted when the zone has no DS there and the name is not at/below a secure delegation (RFC 5155 6, 8.6)",
@@ -1514,6 +1553,7 @@ pub fn check() -> Option<Check> {
             comp_enum,
             comp_sampled,
             comp_e2e,
+            positive_e2e,
             limits_e2e,
         ],
     })
